@@ -51,6 +51,49 @@ def running(c, who='self'):
 
 common = dict(fields=FIELDS, class_modules=CM, policies=POL, inline=INL, opts=OPTS)
 
+
+def wakes_clock_thread_in_rt(c):
+    """a change of the beat/second map re-times what is pending: in real time the sleeping clock thread is
+    woken (once) so that it recomputes its deadline; in non-real time there is no thread to wake"""
+    n = [e for e in c.trace if e[0] == 'call' and e[2] == 'notify' and str(e[1]).endswith('_sched_cond')]
+    nrt = z3.Int('self.__mode') == 0
+    return z3.And(z3.BoolVal(len(n) <= 1), z3.BoolVal(len(n) == 1) == z3.Not(nrt))
+
+
+def notifies(what):
+    def f(c):
+        n = [e for e in c.trace if e[0] == 'call' and e[1] == 'NotificationCenter.notify']
+        ok = (len(n) == 1 and len(n[0][2]) == 2 and n[0][2][0].k == 'ref' and n[0][2][0].oid == 'self'
+              and n[0][2][1].k == 'str' and n[0][2][1].py == what)
+        return z3.BoolVal(bool(ok))
+    return f
+
+def init_post(c):
+    v = c.post.self
+    now = c.pre.main.current_tt._seconds
+    secs = now if c.kinds['seconds'] == 'none' else z3.If(c.seconds == 0, now, c.seconds)      # `seconds or now`
+    beats = 0 if c.kinds['beats'] == 'none' else c.beats
+    t = c.trace
+    reg = [e for e in t if e[0] == 'call' and e[1] == 'cls:TempoClock._all' and e[2] == 'add']
+    threads = [e for e in t if e[0] == 'ext' and e[1] == 'threading.Thread']
+    starts = [e for e in t if e[0] == 'call' and e[2] == 'start' and 'threading.Thread' in str(e[1])]
+    conds = [e for e in t if e[0] == 'ext' and e[1] == 'threading.Condition']
+    queues = [e for e in t if e[0] == 'new' and e[1] == 'TaskQueue']
+    atexit = [e for e in t if e[0] == 'call' and e[1] == 'main._atexitq' and e[2] == 'add']
+    rt = z3.Bool('main.__is_rt')
+    n_rt = (len(threads), len(starts), len(conds), len(queues), len(atexit))
+    registered = len(reg) == 1 and len(reg[0][3]) == 1 and reg[0][3][0].k == 'ref' and reg[0][3][0].oid == 'self'
+    cond_ok = (not conds) or (len(conds[0][2]) == 1 and conds[0][2][0].k == 'obj' and conds[0][2][0].oid == 'main._main_lock')
+    return z3.And(v._base_seconds == secs, v._base_beats == beats, v._beats == 0,
+                  v._beats_per_bar == 4, v._bars_per_beat * 4 == 1, v._base_bar_beat == 0, v._base_bar == 0,
+                  z3.Not(v.permanent), z3.BoolVal(bool(registered)),
+                  v._pure_nrt == z3.Not(rt),
+                  # in real time: its own queue, a condition on the ONE library lock, a thread that is started, and
+                  # a stop handler at exit; otherwise none of these
+                  z3.BoolVal(n_rt == (1, 1, 1, 1, 1)) == rt, z3.BoolVal(n_rt == (0, 0, 0, 0, 0)) == z3.Not(rt),
+                  z3.BoolVal(bool(cond_ok)))
+
+
 # ---- the real methods: invariants established and preserved ------------------
 contract(F, 'TempoClock.__init__', props=('C12',),
          params={'self': 'self', 'tempo': ['none', 'int', 'real'],
@@ -59,7 +102,8 @@ contract(F, 'TempoClock.__init__', props=('C12',),
          ensures=[('establishes-map-invariant', lambda c: inv(c.post.self)),
                   ('establishes-meter-invariant', lambda c: meter_inv(c.post.self)),
                   ('tempo-as-given', lambda c: c.post.self._tempo ==
-                   (1 if c.kinds['tempo'] == 'none' else z3.If(c.tempo == 0, 1, c.tempo)))],
+                   (1 if c.kinds['tempo'] == 'none' else z3.If(c.tempo == 0, 1, c.tempo))),
+                  ('a-new-clock:origin,meter,registration,and-in-real-time-its-own-running-thread', init_post)],
          **dict(common, opts=dict(OPTS, opaque_construct=('ClockTask', 'Function', 'TaskQueue'),
                                   opaque_ext=('threading.Condition', 'threading.Thread'))))
 
@@ -70,8 +114,8 @@ contract(F, 'TempoClock.tempo@setter', props=('C12',),
                  'ClockNotRunning': lambda c: z3.Not(running(c))},
          ensures=[('preserves-map-invariant', lambda c: inv(c.post.self)),
                   ('sets-tempo', lambda c: c.post.self._tempo == c.value),
-                  ('notifies-dependants', lambda c: any(
-                      e[0] == 'call' and e[1] == 'NotificationCenter.notify' for e in c.trace))],
+                  ('notifies-dependants', notifies('tempo')),
+                  ('wakes-the-clock-thread-in-real-time', wakes_clock_thread_in_rt)],
          modifies=[('self', '_tempo'), ('self', '_beat_dur'), ('self', '_base_seconds'),
                    ('self', '_base_beats')],
          **common)
@@ -82,7 +126,9 @@ contract(F, 'TempoClock.etempo', props=('C12',),
          raises={'ValueError': lambda c: c.value == 0,
                  'ClockNotRunning': lambda c: z3.Not(running(c))},
          ensures=[('preserves-reciprocal', lambda c: c.post.self._beat_dur * c.post.self._tempo == 1),
-                  ('sets-tempo', lambda c: c.post.self._tempo == c.value)],
+                  ('sets-tempo', lambda c: c.post.self._tempo == c.value),
+                  ('notifies-dependants', notifies('tempo')),
+                  ('wakes-the-clock-thread-in-real-time', wakes_clock_thread_in_rt)],
          modifies=[('self', '_tempo'), ('self', '_beat_dur'), ('self', '_base_seconds'),
                    ('self', '_base_beats')],
          **common)
@@ -92,7 +138,8 @@ contract(F, 'TempoClock.beats@setter', props=('C12',),
          requires=lambda c: inv(c.pre.self),
          raises={'ClockNotRunning': lambda c: z3.Not(running(c))},
          ensures=[('preserves-map-invariant', lambda c: inv(c.post.self)),
-                  ('keeps-tempo', lambda c: c.post.self._tempo == c.pre.self._tempo)],
+                  ('keeps-tempo', lambda c: c.post.self._tempo == c.pre.self._tempo),
+                  ('wakes-the-clock-thread-in-real-time', wakes_clock_thread_in_rt)],
          modifies=[('self', '_beat_dur'), ('self', '_base_seconds'), ('self', '_base_beats')],
          **common)
 
@@ -122,6 +169,7 @@ contract(F, 'TempoClock.beats_per_bar@setter', props=('C12',),
          raises={'ClockError': lambda c: z3.Not(on_own_clock(c))},
          ensures=[('preserves-meter-invariant', lambda c: meter_inv(c.post.self)),
                   ('sets-meter', lambda c: c.post.self._beats_per_bar == c.value),
+                  ('notifies-dependants', notifies('meter')),
                   ('current-beat-is-a-bar-line', lambda c: z3.And(
                       z3.IsInt(c.post.self._base_bar),
                       # the new base bar beat is the current beat
@@ -162,6 +210,32 @@ contract(F, 'TempoClock.next_time_on_grid', props=('C12',),
          modifies=[],
          **dict(common, inline=('mod', 'roundup', 'div', 'floor', 'ceil')))
 
+# without a reference beat the grid is looked up from the clock's CURRENT logical beat
+def ntog_now(c):
+    s = c.pre.self
+    return (c.pre.main.current_tt._seconds - s._base_seconds) * s._tempo + s._base_beats
+
+
+def ntog_none_range(c):
+    return z3.Implies(c.quant > 0, z3.And(c.result >= ntog_now(c), c.result < ntog_now(c) + c.quant))
+
+
+from vf.pyvc.spec import REGISTRY
+_ntog = REGISTRY.pop('%s::TempoClock.next_time_on_grid' % F)
+contract(F, 'TempoClock.next_time_on_grid', props=('C12',),
+         params={'self': 'self', 'quant': 'num', 'phase': 'num', 'refbeat': 'none'},
+         requires=lambda c: z3.And(running(c), z3.Implies(c.quant > 0, z3.And(-c.quant < c.phase, c.phase < c.quant))),
+         raises={'ValueError': lambda c: c.quant < 0},
+         returns='real',
+         ensures=[('not-before-the-current-beat', ntog_none_range),
+                  ('no-quantisation-when-zero', lambda c: z3.Implies(c.quant == 0, c.result == ntog_now(c) + c.phase))],
+         modifies=[],
+         **dict(common, inline=INL + ('mod', 'roundup', 'div', 'floor', 'ceil')))
+_k = '%s::TempoClock.next_time_on_grid#from-the-current-beat' % F
+REGISTRY[_k] = REGISTRY.pop('%s::TempoClock.next_time_on_grid' % F)
+REGISTRY[_k].key = _k
+REGISTRY['%s::TempoClock.next_time_on_grid' % F] = _ntog
+
 # ---- relational theorems over the real bodies (ghost lemma functions) --------
 contract(L, 'beats_secs_roundtrip', props=('C12',),
          params={'clock': 'ref:TempoClock', 'b': 'real'},
@@ -178,7 +252,9 @@ contract(L, 'tempo_change_is_continuous', props=('C12',),
 contract(L, 'etempo_change_is_continuous', props=('C12',),
          params={'clock': 'ref:TempoClock', 'value': 'num', 's2': 'real'},
          requires=lambda c: z3.And(inv(c.pre.clock), running(c, 'clock'), c.value != 0),
-         ensures=[('continuous-and-advances-at-new-tempo', lambda c: c.result)], **common)
+         ensures=[('continuous-and-advances-at-new-tempo', lambda c: c.result)], native=False,
+         note='the instant of the change is a physical-time reading (free in the proof): a native replay cannot '
+              'choose it, so counter-models are not replayed', **common)
 contract(L, 'beats_change_is_continuous', props=('C12',),
          params={'clock': 'ref:TempoClock', 'value': 'num', 's2': 'real'},
          requires=lambda c: z3.And(inv(c.pre.clock), running(c, 'clock')),
